@@ -11,7 +11,7 @@ import (
 )
 
 //assume: C18: cookie domains are ordered longest first (validation sorts them; comparator checked in C18.sort); SameSite is one of the validated values; 'matching' = the documented suffix test on the request host string including any port
-//assume: C18: expiration within +-2^53 ns (float64 conversion in Duration.Seconds is exact there)
+//assume: C18: expiration within +-2^53 ns (104 days), or a whole number of seconds below 2^31 (68 years): float64 conversion in Duration.Seconds is exact in both ranges
 
 func vC18SameSite(k int) (string, http.SameSite) {
 	switch k {
@@ -26,7 +26,7 @@ func vC18SameSite(k int) (string, http.SameSite) {
 }
 
 // MakeCookieFromOptions: every attribute as configured; Domain = longest configured domain matching the request host, else the shortest, also for deletions; X-Forwarded-Host ignored unless reverse-proxy
-// verif: unwind=5 strlen=10 also=C11,C16
+// verif: unwind=5 strlen=10 also=C11,C16,C09
 func vh_C18_make() {
 	nd := ndChoice("ndomains", 4)
 	if verifThorough() {
@@ -60,7 +60,14 @@ func vh_C18_make() {
 		effHost = h.Get("X-Forwarded-Host")
 	}
 	exp := time.Duration(ndInt("expiration"))
-	verifAssume(exp > -(1<<53) && exp < (1<<53))
+	if ndBool("whole-seconds-up-to-68-years") {
+		k := ndInt("expiration-seconds")
+		verifAssume(k > 0 && k < (1<<31))
+		exp = time.Duration(k) * time.Second
+		verifReach("long-lifetime")
+	} else {
+		verifAssume(exp > -(1<<53) && exp < (1<<53))
+	}
 	name := ndString("name")
 	value := ndString("value")
 	c := MakeCookieFromOptions(req, name, value, opts, exp)
@@ -85,6 +92,7 @@ func vh_C18_make() {
 	verifAssert("C18.samesite", c.SameSite == ssWant)
 	if exp > 0 {
 		verifAssert("C18.maxage-pos", c.MaxAge == int(exp/time.Second))
+		verifAssert("C09.make.max-age-is-the-lifetime-given", c.MaxAge == int(exp/time.Second))
 		verifReach("pos")
 	} else if exp < 0 {
 		verifAssert("C18.maxage-neg", c.MaxAge == -1)
